@@ -210,7 +210,10 @@ def check(col, prog, tier, profile, fixture=None):
     for pub, internal, direction in (("lower_bound", "lower_bound_internal", "fwd"), ("lower_bound_rev", "lower_bound_rev_internal", "rev")):
         b = R.fn[pub]
         tgt = R.fn[internal]
-        I = c01.analyse(b)
+        # an entry point written through another (non-role) public method of Segtree is judged with that method inlined
+        rolekeys = {x.key for x in R.fn.values()}
+        pubh = [m_ for m_ in util.methods_of(crate, "Segtree") if m_.vis == "pub" and m_.key not in rolekeys and not util.self_recursive(m_)]
+        I = R.A_with(pubh)(b)
         It = c01.analyse(tgt)
         cpos = [p for p in range(1, tgt.arg_count) if not tgt.locals[p + 1]["ty"].startswith("&") and tgt.locals[p + 1]["ty"] != "usize"][0]
         for st in I.final_states:
@@ -226,13 +229,30 @@ def check(col, prog, tier, profile, fixture=None):
                 c = ev.args[cpos]
                 ok = c[0] == "call" and str(c[1]).endswith("Default::default")
                 ret = util.ret_term(st)
-                ok = ok and ret == ("proj", 1, ev.res)
+                ok = ok and _same_option(st, ret, ("proj", 1, ev.res))
                 key = "%s|identity-carry" % fk(b)
                 if ok:
                     col.ok("B5" + sfx, b.loc(ev.bb), key, "initial carry T::default(); returns the found index")
                 else:
                     col.violation("B5" + sfx, key, b.loc(ev.bb), "%s must start the search with T::default() as carry and return the search's index component" % b.path)
     _defaults(col, crate, sfx)
+
+
+def _same_option(st, ret, X):
+    """ret is the Option X itself, or X rebuilt on this path: None where the facts say X is None, Some(payload of
+    X) where they say it is Some (what `x.map(|v| v)`, a match, or map-then-project produce)"""
+    from ..absint import NONE, mk_some, mk_proj, mk_down
+
+    if ret == X:
+        return True
+    d = ("discr", X)
+    none = any((f[0] == "eq" and f[1] == d and f[2] == 0) or (f[0] == "ne" and f[1] == d and f[2] == 1) for f in st.facts)
+    some = any((f[0] == "eq" and f[1] == d and f[2] == 1) or (f[0] == "ne" and f[1] == d and f[2] == 0) for f in st.facts)
+    if none and ret == NONE:
+        return True
+    if some and ret == mk_some(mk_proj(mk_down(X, 1), 0)):
+        return True
+    return False
 
 
 def _out_of_range_path(I, st, R, ipos):
